@@ -1077,14 +1077,14 @@ func c15Personal(c *Ctx) {
 	if !r.Anchor("O-5", fk, fn != nil) {
 		return
 	}
-	loads := callsTo(fn, dbPkg+".LoadDatabase")
-	sortCallsByPos(loads)
-	if len(loads) != 2 {
-		r.Bad("O-5", fk+"#two-loads", c.P.Pos(fn.Pos()), fmt.Sprintf("%d LoadDatabase calls (want main then personal)", len(loads)))
+	lcs := loadCalls(c, fn)
+	if len(lcs) != 2 {
+		r.Bad("O-5", fk+"#two-loads", c.P.Pos(fn.Pos()), fmt.Sprintf("%d loads of a command file (want main then personal)", len(lcs)))
 		return
 	}
-	mainC, persC := loads[0], loads[1]
-	argOK := mainC.Common().Args[0] == ssa.Value(fn.Params[0]) && persC.Common().Args[0] == ssa.Value(fn.Params[1])
+	mainL := lcs[0]
+	mainC, persC := lcs[0].call, lcs[1].call
+	argOK := lcs[0].path == ssa.Value(fn.Params[0]) && lcs[1].path == ssa.Value(fn.Params[1])
 	r.Check(argOK && ssau.Dominates(mainC, persC), "O-5", fk+"#main-then-personal", c.P.Pos(mainC.Pos()), "LoadDatabase(mainDBPath) dominates LoadDatabase(personalDBPath)", "the two loads do not read (main path, personal path) in that order")
 	ok, why := failurePropagates(mainC)
 	r.Check(ok, "O-5", fk+"#main-error-returned", c.P.Pos(mainC.Pos()), "a failed main load is returned", why)
@@ -1110,7 +1110,7 @@ func c15Personal(c *Ctx) {
 		v0, v1 := ssau.ResultValue(ret, 0), ssau.ResultValue(ret, 1)
 		key := fk + "#personal-failure-exit:" + exitName(fn, ret)
 		switch {
-		case v0 == mainDB && ssau.IsNilConst(v1):
+		case (v0 == mainDB || c15DatabaseOf(c, v0, mainL)) && ssau.IsNilConst(v1):
 			nTol++
 			// control-dependent on a not-exist test being true
 			var by *errClassTest
@@ -1232,4 +1232,33 @@ func failedAsserts(v ssa.Value, pred, blk *ssa.BasicBlock) map[string]bool {
 		}
 	}
 	return out
+}
+
+// c15DatabaseOf: v is a database built from the command list of load l alone:
+// a constructor helper of the repository given that list, or a Database
+// literal whose Commands is that list.
+func c15DatabaseOf(c *Ctx, v ssa.Value, l loadCall) bool {
+	switch x := v.(type) {
+	case *ssa.Call:
+		g := x.Common().StaticCallee()
+		if g == nil || !c.P.IsRepoFunc(g) || len(g.Blocks) == 0 {
+			return false
+		}
+		for _, a := range x.Common().Args {
+			if l.commands(a) {
+				return true
+			}
+		}
+	case *ssa.Alloc:
+		for _, ref := range *x.Referrers() {
+			if fa, ok := ref.(*ssa.FieldAddr); ok && ssau.FieldName(fa) == "Commands" {
+				for _, r2 := range *fa.Referrers() {
+					if st, ok := r2.(*ssa.Store); ok && st.Addr == ssa.Value(fa) && l.commands(st.Val) {
+						return true
+					}
+				}
+			}
+		}
+	}
+	return false
 }
